@@ -3,7 +3,7 @@ from specs import restore, snapbody, c18
 
 LEVEL = 'proof'
 UNITS = [restore.download_chunk_unit('C04', restore.c04_download_chunk_post('C04')),
-         snapbody.download_snapshot_unit('C04'), snapbody.decrypt_body_unit('C04')] + c18.units('C04')
+         snapbody.download_snapshot_unit('C04'), snapbody.decrypt_body_unit('C04'), restore.restore_tail_unit('C04')] + c18.units('C04')
 BOUNDED = [{'name': 'C04.e2e_corrupt', 'script': 'bounded/c04_corrupt.py', 'timeout': 900, 'bound': 'two small repositories (plain / encrypted, 2 snapshots, 3 files): every stored object x {bit flip at 7 offset classes, truncate to 4 length classes, append, delete (chunks)} + swaps/replays of object pairs; every 3rd case in quick tier; cache absent / warm / truncated for every 4th case'}]
 TRUSTED = [
     'vf symbolic executor (/verif/vf): encoding of the Python subset (DESIGN 2.2)',
